@@ -143,7 +143,7 @@ class S:
         self.k, self.f = k, f
 
     def __getattr__(self, n):
-        if n in ("k", "ty", "f") or n.startswith("__"):
+        if n in ("k", "f") or n.startswith("__"):
             raise AttributeError(n)
         try:
             return self.f[n]
@@ -274,7 +274,7 @@ def base_coq(b):
 
 
 def path_coq(p):
-    return "[" + "; ".join(f"inl {e_coq(el[1])}" if el[0] == "i" else f"inr {el[2]}" for el in p) + "]"
+    return "[" + "; ".join(f"inl {e_coq(el[1])}" if el[0] == "i" else f"inr {el[2]}%nat" for el in p) + "]"
 
 
 def e_coq(e):
